@@ -4,6 +4,7 @@ import (
 	"time"
 
 	"github.com/karagenc/socket.io-go/internal/sync"
+	"github.com/karagenc/socket.io-go/internal/vhook"
 
 	"github.com/karagenc/socket.io-go/engine.io/parser"
 )
@@ -26,13 +27,17 @@ func (pq *pollQueue) poll(pollTimeout time.Duration) []*parser.Packet {
 	packets := pq.get()
 
 	if len(packets) > 0 {
+		vhook.Event("pollq.ret", "o", pq, "n", len(packets), "via", "fast")
 		return packets
 	}
+	vhook.Yield("pollq.poll.beforeWait", pq)
 
 	select {
 	case <-pq.ready:
 		packets = pq.get()
+		vhook.Event("pollq.ret", "o", pq, "n", len(packets), "via", "ready")
 	case <-time.After(pollTimeout):
+		vhook.Event("pollq.ret", "o", pq, "n", len(packets), "via", "timeout")
 	}
 	return packets
 }
@@ -53,6 +58,7 @@ func (pq *pollQueue) add(packets ...*parser.Packet) {
 	case pq.ready <- struct{}{}:
 	default:
 	}
+	vhook.Event("pollq.add", "o", pq, "pk", packets, "len", len(pq.packets))
 }
 
 // Retrieve the packets without waiting.
@@ -60,6 +66,7 @@ func (pq *pollQueue) get() []*parser.Packet {
 	pq.mu.Lock()
 	packets := pq.packets
 	pq.packets = nil
+	vhook.Event("pollq.get", "o", pq, "pk", packets)
 	pq.mu.Unlock()
 	return packets
 }
